@@ -295,6 +295,13 @@ impl<'tcx> Cx<'tcx> {
             _ => None,
         };
         if let Some(v) = val {
+            if let ty::Adt(ad, _) = ty.kind() {
+                if ad.did().is_local() && (ad.is_enum() || ad.is_struct()) {
+                    if let Some(t) = self.const_tree(v, ty, 0) {
+                        o.push(("tree", t));
+                    }
+                }
+            }
             match v {
                 ConstValue::Scalar(Scalar::Int(si)) => match ty.kind() {
                     ty::Bool => o.push(("bool", J::Bool(si.to_uint(si.size()) != 0))),
@@ -347,6 +354,43 @@ impl<'tcx> Cx<'tcx> {
             }
         }
         J::obj(o)
+    }
+
+    /// value of a constant of a crate-local ADT type as a tree {adt, variant, fields} with scalar leaves
+    fn const_tree(&mut self, v: ConstValue, ty: Ty<'tcx>, depth: usize) -> Option<J> {
+        let tcx = self.tcx;
+        if depth > 6 {
+            return None;
+        }
+        match ty.kind() {
+            ty::Bool | ty::Char | ty::Int(_) | ty::Uint(_) | ty::Float(_) => {
+                if let ConstValue::Scalar(Scalar::Int(si)) = v {
+                    return Some(match ty.kind() {
+                        ty::Bool => J::obj(vec![("bool", J::Bool(si.to_uint(si.size()) != 0))]),
+                        ty::Int(_) => J::obj(vec![("int", J::s(si.to_int(si.size()).to_string()))]),
+                        ty::Uint(_) => J::obj(vec![("int", J::s(si.to_uint(si.size()).to_string()))]),
+                        ty::Char => J::obj(vec![("char", J::n(si.to_uint(si.size()) as u32 as usize))]),
+                        _ => J::obj(vec![("floatbits", J::s(si.to_uint(si.size()).to_string()))]),
+                    });
+                }
+                None
+            }
+            ty::Adt(ad, _) if ad.is_enum() || ad.is_struct() => {
+                let d = tcx.try_destructure_mir_constant_for_user_output(v, ty)?;
+                let vidx = d.variant.unwrap_or(rustc_abi::FIRST_VARIANT);
+                let vdef = ad.variant(vidx);
+                let mut fields = vec![];
+                for (fv, fty) in d.fields.iter() {
+                    fields.push(self.const_tree(*fv, *fty, depth + 1)?);
+                }
+                Some(J::obj(vec![
+                    ("adt", J::s(self.path(ad.did()))),
+                    ("variant", J::s(vdef.name.to_string())),
+                    ("fields", J::Arr(fields)),
+                ]))
+            }
+            _ => None,
+        }
     }
 
     fn operand(&mut self, env: TypingEnv<'tcx>, op: &Operand<'tcx>) -> J {
